@@ -314,7 +314,39 @@ def run(rep, tier):
             rep.check(ok, 'R08.7', '%s|_externalQueue assigned' % f.q.split('uscxml::')[-1], locstr(a), 'the assignment of a new queue is %s' % (
                 'dominated by an emptiness test made under _serializationMutex' if ok else 'NOT guarded by an emptiness test made under _serializationMutex: two early producers replace each other\'s queue and the events in it are lost'))
     rep.minimum('R08.7', n_asg, 1, 'assignments to _externalQueue outside init()')
+    # the configuration entry may install the caller's queue, but must not wipe a lazily created one with an empty handle
+    sal = fb.fn('uscxml::InterpreterImpl::setActionLanguage', required=False)
+    if sal is not None:
+        for a in [n for n in sal.walk() if n['k'] == 'CXXOperatorCallExpr' and n.get('op') == '=' and len(n.get('c', [])) > 1 and strip(n['c'][1]) is not None and
+                  strip(n['c'][1])['k'] == 'MemberExpr' and strip(n['c'][1])['ref'].get('name') == '_externalQueue']:
+            guarded = any(a_['k'] == 'IfStmt' and any(x['k'] == 'MemberExpr' and x['ref'].get('name') == 'externalQueue' for x in sub(a_['c'][0])) for a_ in sal.ancestors(a))
+            rep.check(guarded, 'R08.7', 'setActionLanguage|_externalQueue replaced only by a queue', locstr(a), 'setActionLanguage %s' % (
+                'keeps the existing queue when the caller passes none' if guarded else 'assigns al.externalQueue UNCONDITIONALLY: receive("first"); setActionLanguage(al with only a micro-stepper) replaces the lazily created queue by an empty handle, "first" is never processed'))
 
+    # ---- R08.9 eventless transitions are re-checked after EVERY event
+    rep.rule('R08.9', 'an event is only taken when no eventless transition is enabled: the engines go through an eventless selection pass after every event, also after one that selected no transition (a guard may read _event, a <finalize> block may have changed data)')
+    for eq in ENGINES:
+        f9 = fb.fn(eq)
+        site = None
+        for n in f9.walk():
+            if n['k'] == 'IfStmt' and any(m[0] == 'USCXML_CTX_TRANSITION_FOUND' for x in sub(n['c'][0]) for m in (x.get('mac') or [])) and len(n['c']) > 2 and n['c'][2] is not None:
+                els = n['c'][2]
+                clears = any(x['k'] == 'CompoundAssignOperator' and x.get('op') == '&=' and any(m[0] == 'USCXML_CTX_SPONTANEOUS' for y in sub(x) for m in (y.get('mac') or [])) for x in sub(els))
+                if clears:
+                    site = (n, els)
+        if site is None:
+            raise AnalysisBroken('%s: the branch that ends the eventless passes was not found' % eq)
+        looks_at_event = any(x['k'] == 'MemberExpr' and x['ref'].get('name') == '_event' for x in sub(site[1]))
+        rep.check(looks_at_event, 'R08.9', eq.split('::')[1] + '|eventless pass after an event that selected nothing', locstr(site[0]), 'when a selection pass finds no transition, %s' % (
+            'an event pass is followed by one more eventless pass' if looks_at_event else 'SPONTANEOUS is cleared whether or not the pass was for an event: the next internal / external event is dequeued although an eventless transition (guard on _event, data changed by <finalize>) is enabled'))
+    # ---- R08.10 "nothing dequeued" is not an event value
+    rep.rule('R08.10', 'every accepted event is processed: "no event" is signalled out of band, not by an event whose name is empty (a <send> without event attribute is taken off the queue and dropped silently otherwise)')
+    dqx = fb.fn('uscxml::InterpreterImpl::dequeueExternal')
+    ob = next((f_ for f_ in fb.funcs.values() if f_.q.endswith('Event::operator bool')), None)
+    by_name = ob is not None and any(x['k'] == 'MemberExpr' and x['ref'].get('name') == 'name' for x in ob.walk())
+    tests_ev = any(n['k'] in ('IfStmt',) and any(x['k'] == 'CXXMemberCallExpr' and 'operator bool' in x.get('callee', {}).get('q', '') and 'Event' in x.get('callee', {}).get('q', '') for x in sub(n['c'][0])) for n in dqx.walk())
+    rep.check(not (by_name and tests_ev), 'R08.10', 'dequeueExternal|empty name as sentinel', dqx.where(), 'dequeueExternal %s' % (
+        'distinguishes "nothing dequeued" out of band' if not (by_name and tests_ev) else 'tests the dequeued event with Event::operator bool, which is name.size() > 0 - the in-band unblock sentinel: a real event without a name is taken from the queue and discarded (no beforeProcessingEvent, no finalize, no autoforward, not matched by "*")'))
     # ---- R08.8
     er = fb.fn('uscxml::InterpreterImpl::eventReady')
     ger = path.EHCFG(er) if hasattr(path, 'EHCFG') else cfgm.CFG(er)
